@@ -93,8 +93,32 @@ def docRich : DocD :=
     groups := [wG], site := qs "https://example.org", triggers := [wT1, wT2], version := qs "13" }
 
 
+/-! documents OUTSIDE `Valid`, one per clause the code forces -/
+
+/-- a group that is referenced but not listed at top level: `validate()` appends it -/
+def docOutsideUnlistedGroup : DocD :=
+  wDoc [{ uuid := "n1".toList, router := none, exits := [wExit "e1"],
+          actions := [.addGroups (qs "a1") [{ name := "g".toList, uuid := "gu".toList }]] }]
+
+/-- an empty attachment: `_get_attachments` filters it out -/
+def docOutsideEmptyAttachment : DocD :=
+  wDoc [{ uuid := "n1".toList, router := none, exits := [wExit "e1"],
+          actions := [.sendMsg (qs "a1") (qs "hi") [qs "", qs "image:x"] jEmptyArr none none none] }]
+
+/-- a timeout of 0 seconds: the no-response category and the timeout are dropped -/
+def docOutsideZeroTimeout : DocD :=
+  wDoc [{ uuid := "n1".toList, actions := [], exits := [wExit "e1", wExit "e2"],
+          router := some (.switch (qs "@input.text") [] [wCat "c1" "Other" "e1", wCat "c2" "No Response" "e2"] "c1".toList
+            (some { type := jMsg, timeout := some { seconds := 0, categoryUuid := "c2".toList } }) none) }]
+
+/-- a destination spelled HARD_EXIT: rendered as null -/
+def docOutsideHardExit : DocD :=
+  wDoc [{ uuid := "n1".toList, router := none, actions := [], exits := [{ uuid := "e1".toList, dest := some jHardExit }] }]
+
 def all : List (String × DocD) :=
   [("docGood", docGood), ("docRich", docRich), ("docDefaultFirst", docDefaultFirst),
-   ("docExitsPermuted", docExitsPermuted), ("docTypedField", docTypedField), ("docGroupQuery", docGroupQuery)]
+   ("docExitsPermuted", docExitsPermuted), ("docTypedField", docTypedField), ("docGroupQuery", docGroupQuery),
+   ("docOutsideUnlistedGroup", docOutsideUnlistedGroup), ("docOutsideEmptyAttachment", docOutsideEmptyAttachment),
+   ("docOutsideZeroTimeout", docOutsideZeroTimeout), ("docOutsideHardExit", docOutsideHardExit)]
 
 end Rpft.Document.Witness
